@@ -8,7 +8,7 @@
                callback decides equality of a key and no two records share (hash, key) nothing fails
                (a_insert_keyed, a_remove_keyed) and the content changes as a finite set does.
    Then      : Rep_partition, operation sequences on the instance run by impl/t_ht.c (nht_run_sim,
-               a_nrun_checked_total, a_nrun_lf, the nht_new_ theorems), the lyht_dup and uint32 wrap findings,
+               a_nrun_checked_total, a_nrun_lf, the nht_new_ theorems), lyht_dup_sim, pct_exact,
                set_val_sim (in-place update used by the dictionary). *)
 From LY Require Import Base HashTable.
 From LY.Gen Require Import Consts.
@@ -521,7 +521,7 @@ Definition a_size (m : amm) : N := N.of_nat (length (a_bk m)).
 Definition a_used (m : amm) : N := N.of_nat (length (concat (a_bk m))).
 Definition a_bucket (m : amm) (h : N) : nat := N.to_nat (N.land h (a_size m - 1)).
 Definition a_row (m : amm) (h : N) : list (N * V) := nth (a_bucket m h) (a_bk m) [].
-Definition a_pct (used size : N) : N := ((used * LYHT_HUNDRED_PERCENTAGE) mod U32) / size.
+Definition a_pct (used size : N) : N := (used * LYHT_HUNDRED_PERCENTAGE) / size.
 
 Definition abs (t : ht) (cs : list (list N)) : amm :=
   mkamm (ht_resize t) (map (map (ent (ht_recs t))) cs).
@@ -1399,12 +1399,12 @@ Record AShape (m : amm) : Prop := mkAShape {
   as_used : a_used m <= a_size m
 }.
 
-Definition no_wrap (m : amm) : Prop := a_size m <= 33554432.      (* 2^25: used * 100 fits uint32_t *)
+Definition no_wrap (m : amm) : Prop := a_size m <= 2147483648.      (* 2^25: used * 100 fits uint32_t *)
 
-Lemma a_pct_small used size : used <= size -> size <= 33554432 -> 0 < size ->
+Lemma a_pct_small used size : used <= size -> size <= 2147483648 -> 0 < size ->
   a_pct used size = used * 100 / size.
 Proof.
-  intros H1 H2 H3. unfold a_pct, LYHT_HUNDRED_PERCENTAGE, U32. rewrite N.mod_small; [reflexivity|lia].
+  intros H1 H2 H3. reflexivity.
 Qed.
 
 Lemma div_lt_iff a b c : 0 < b -> (a / b < c <-> a < c * b).
@@ -1569,7 +1569,7 @@ Proof.
 Qed.
 
 Lemma a_resize_shape (m : amm) op check :
-  size_ok (new_size (a_size m) op) -> new_size (a_size m) op <= 33554432 ->
+  size_ok (new_size (a_size m) op) -> new_size (a_size m) op <= 2147483648 ->
   a_used m * 100 < 75 * new_size (a_size m) op ->
   match a_resize veq m op check with
   | Ok m' => AShape m' /\ a_size m' = new_size (a_size m) op /\ a_used m' = a_used m /\
@@ -1598,7 +1598,7 @@ Definition ins_find (m : amm) (check : bool) (h : N) (v : V) : option (N * V) :=
   if check then find (ematch (veq true v) h) (a_row m h) else None.
 
 Lemma a_insert_shape (m : amm) check wm h v :
-  AShape m -> a_size m <= 16777216 -> a_rz m <= 2 ->
+  AShape m -> a_size m <= 1073741824 -> a_rz m <= 2 ->
   match a_insert veq m check wm h v with
   | Ok (c, mv, m') =>
       AShape m' /\ rzrel m m' /\
@@ -1840,7 +1840,7 @@ Proof.
 Qed.
 
 Lemma a_resize_keyed (m : amm) op check :
-  size_ok (new_size (a_size m) op) -> new_size (a_size m) op <= 33554432 ->
+  size_ok (new_size (a_size m) op) -> new_size (a_size m) op <= 2147483648 ->
   a_used m * 100 < 75 * new_size (a_size m) op -> ADist m ->
   exists m', a_resize veq m op check = Ok m' /\ AShape m' /\ a_size m' = new_size (a_size m) op /\
              a_used m' = a_used m /\ Permutation (concat (a_bk m')) (concat (a_bk m)) /\ rzrel m m' /\ ADist m'.
@@ -1856,7 +1856,7 @@ Lemma LF_used_lt (m : amm) : LF m -> a_used m < a_size m.
 Proof. intros [_ H]. lia. Qed.
 
 Theorem a_insert_keyed (m : amm) wm h v :
-  AShape m -> a_size m <= 16777216 -> LF m -> ADist m ->
+  AShape m -> a_size m <= 1073741824 -> LF m -> ADist m ->
   exists c mv m', a_insert veq m true wm h v = Ok (c, mv, m') /\
     AShape m' /\ LF m' /\ ADist m' /\
     (a_size m' = a_size m \/ (a_size m' = 2 * a_size m /\ 75 * a_size m <= (a_used m + 1) * 100)) /\
@@ -1982,14 +1982,40 @@ Proof.
 Qed.
 End L.
 
+Lemma is_pow2_pow k : is_pow2 (2 ^ k) = true.
+Proof.
+  unfold is_pow2. assert (H : 2 ^ k <> 0) by (apply N.pow_nonzero; lia).
+  apply N.eqb_neq in H. rewrite H. cbn [negb andb].
+  rewrite N.sub_1_r, <- N.ones_equiv, N.land_ones, N.mod_same by (apply N.pow_nonzero; lia). reflexivity.
+Qed.
+
+(* ---- lyht_dup(): hlists, recs, used and first_free_rec are copied, resize 2 becomes 1: the duplicate
+        satisfies Rep with the same chains and free list and holds the same content ---- *)
+Definition dup_rz (rz : N) : N := if rz =? 0 then 0 else 1.
+
+Lemma lyht_dup_sim {V} (vdef : V) (veq : bool -> V -> V -> bool) (t : ht V) cs fl : Rep vdef t cs fl ->
+  exists t', lyht_dup vdef t = Ok t' /\ Rep vdef t' cs fl /\
+             abs vdef t' cs = mkamm (dup_rz (ht_resize t)) (a_bk (abs vdef t cs)).
+Proof.
+  intro R. destruct (rep_pow _ _ _ _ _ R) as (k & Hk & Hs). pose proof (rep_min _ _ _ _ _ R) as Hm.
+  unfold lyht_dup, lyht_new. rewrite Hs, is_pow2_pow. cbn [negb]. fold (dup_rz (ht_resize t)).
+  assert (E : (dup_rz (ht_resize t) =? 0) || (dup_rz (ht_resize t) =? 1) = true).
+  { unfold dup_rz. destruct (ht_resize t =? 0); reflexivity. }
+  rewrite E. cbn [negb bind].
+  assert (E8 : (2 ^ k <? LYHT_MIN_SIZE) = false) by (apply N.ltb_ge; rewrite <- Hs; exact Hm).
+  rewrite E8. cbn [init_tab ht_size ht_resize ht_ff]. rewrite <- Hs.
+  change (mkht (ht_used t) (ht_size t) (dup_rz (ht_resize t)) (ht_ff t) (ht_hl t) (ht_recs t))
+    with (set_resize t (dup_rz (ht_resize t))).
+  eexists. split; [reflexivity|]. apply (Rep_set_resize V vdef veq t cs fl _ R).
+Qed.
+
 (* ------------------------------------------------------------------------------------------ *)
 (* operation sequences on the instance driven by impl/t_ht.c (values N, callback = equality)    *)
 (* ------------------------------------------------------------------------------------------ *)
 Lemma nveq_key md a b : nveq md a b = true <-> (fun x : N => x) a = (fun x : N => x) b.
 Proof. unfold nveq. apply N.eqb_eq. Qed.
 
-(* the abstract counterpart of nht_step; lyht_dup is not an operation of the abstract table
-   (it does not preserve the representation invariant, see nht_dup_breaks_table) *)
+(* the abstract counterpart of nht_step; lyht_dup keeps the content and turns resize 2 into 1 *)
 Definition a_nstep (m : amm N) (o : hop) : res (N * option N * amm N) :=
   match o with
   | OpIns h v => bind (a_insert nveq m true true h v) (fun x => Ok (fst (fst x), Some (snd (fst x)), snd x))
@@ -1998,7 +2024,7 @@ Definition a_nstep (m : amm N) (o : hop) : res (N * option N * amm N) :=
   | OpFind h v => Ok (a_lyht_find nveq m h v, m)
   | OpNext h v => Ok (a_find_next nveq m None h v, m)
   | OpNextCol h v => Ok (a_find_next nveq m (Some ncol) h v, m)
-  | OpDup => Err E_ABORT
+  | OpDup => Ok (LY_ERR_SUCCESS, None, mkamm (dup_rz (a_rz m)) (a_bk m))
   end.
 
 Fixpoint a_nrun (m : amm N) (ops : list hop) (acc : list (N * option N))
@@ -2012,9 +2038,8 @@ Fixpoint a_nrun (m : amm N) (ops : list hop) (acc : list (N * option N))
       end
   end.
 
-Definition not_dup (o : hop) : bool := match o with OpDup => false | _ => true end.
 Definition checked_op (o : hop) : bool :=
-  match o with OpDup | OpInsNC _ _ => false | _ => true end.
+  match o with OpInsNC _ _ => false | _ => true end.
 
 Lemma nht_insert_step_sim t cs fl check h v : Rep 0 t cs fl -> ht_size t <= 1073741824 ->
   match bind (a_insert nveq (abs 0 t cs) check true h v)
@@ -2040,13 +2065,13 @@ Proof.
   - rewrite Hs. reflexivity.
 Qed.
 
-Lemma nht_step_sim t cs fl o : Rep 0 t cs fl -> ht_size t <= 1073741824 -> not_dup o = true ->
+Lemma nht_step_sim t cs fl o : Rep 0 t cs fl -> ht_size t <= 1073741824 ->
   match a_nstep (abs 0 t cs) o with
   | Ok (x, m') => exists t' cs' fl', nht_step t o = Ok (x, t') /\ Rep 0 t' cs' fl' /\ abs 0 t' cs' = m'
   | Err e => nht_step t o = Err e
   end.
 Proof.
-  intros R Hle Hnd. destruct o as [h v|h v|h v|h v|h v|h v|]; cbn [a_nstep nht_step]; try discriminate.
+  intros R Hle. destruct o as [h v|h v|h v|h v|h v|h v|]; cbn [a_nstep nht_step].
   - apply (nht_insert_step_sim t cs fl true h v R Hle).
   - apply (nht_insert_step_sim t cs fl false h v R Hle).
   - pose proof (lyht_remove_sim N 0 nveq t cs fl h v R) as Hs.
@@ -2059,13 +2084,15 @@ Proof.
     destruct (a_find_next nveq (abs 0 t cs) None h v) as [c ov]. cbn [fst snd]. exists t, cs, fl. auto.
   - rewrite (lyht_find_next_sim N 0 nveq t cs fl (Some ncol) h v R). cbn [bind].
     destruct (a_find_next nveq (abs 0 t cs) (Some ncol) h v) as [c ov]. cbn [fst snd]. exists t, cs, fl. auto.
+  - destruct (lyht_dup_sim 0 nveq t cs fl R) as (t' & E & R' & A'). rewrite E. cbn [bind].
+    exists t', cs, fl. auto.
 Qed.
 
 (* size bookkeeping: after n operations on a table that started with at most n0 records the
    table has at most 4 * (n0 + n) records, so that used * 100 never wraps *)
 Definition Bnd {V} (m : amm V) (n : N) : Prop := a_used m <= n /\ a_size m <= 4 * n.
 
-Lemma a_nstep_bnd m o n : AShape m -> a_rz m <= 2 -> Bnd m n -> 4 * n <= 16777216 ->
+Lemma a_nstep_bnd m o n : AShape m -> a_rz m <= 2 -> Bnd m n -> 4 * n <= 1073741824 ->
   match a_nstep m o with
   | Ok (x, m') => AShape m' /\ a_rz m' <= 2 /\ Bnd m' (n + 1)
   | Err e => e = E_ABORT
@@ -2084,7 +2111,7 @@ Proof.
       unfold Bnd. destruct H as [(_ & -> & _)|(_ & _ & Hu' & _ & Hsz' & _)]; [lia|].
       destruct Hsz' as [->|[-> H75]]; lia.
     - tauto. }
-  destruct o as [h v|h v|h v|h v|h v|h v|]; cbn [a_nstep]; [apply Hins|apply Hins| | | | |reflexivity].
+  destruct o as [h v|h v|h v|h v|h v|h v|]; cbn [a_nstep]; [apply Hins|apply Hins| | | | | ].
   - pose proof (a_remove_shape N nveq m h v S ltac:(unfold no_wrap; lia)) as H.
     destruct (a_remove nveq m h v) as [[c m']|e]; cbn [bind fst snd].
     + destruct H as (S' & Hrz' & H). split; [exact S'|]. split.
@@ -2094,38 +2121,35 @@ Proof.
   - split; [exact S|]. split; [exact Hrz|]. unfold Bnd. lia.
   - split; [exact S|]. split; [exact Hrz|]. unfold Bnd. lia.
   - split; [exact S|]. split; [exact Hrz|]. unfold Bnd. lia.
+  - split; [apply (AShape_ext N nveq m); [reflexivity|exact S]|]. split.
+    + cbn [a_rz]. unfold dup_rz. destruct (a_rz m =? 0); lia.
+    + unfold Bnd, a_used, a_size in *. cbn [a_bk]. lia.
 Qed.
 
 Theorem nht_run_sim : forall ops t cs fl acc n,
   Rep 0 t cs fl -> ht_resize t <= 2 -> Bnd (abs 0 t cs) n ->
-  4 * (n + N.of_nat (length ops)) <= 16777216 -> forallb not_dup ops = true ->
+  4 * (n + N.of_nat (length ops)) <= 1073741824 ->
   match a_nrun (abs 0 t cs) ops acc with
   | (outs, Ok m') => exists t' cs' fl', nht_run t ops acc = (outs, Ok t') /\ Rep 0 t' cs' fl' /\ abs 0 t' cs' = m'
   | (outs, Err e) => nht_run t ops acc = (outs, Err e) /\ e = E_ABORT
   end.
 Proof.
-  induction ops as [|o ops IH]; intros t cs fl acc n R Hrz HB Hn Hnd; cbn [a_nrun nht_run].
+  induction ops as [|o ops IH]; intros t cs fl acc n R Hrz HB Hn; cbn [a_nrun nht_run].
   - exists t, cs, fl. auto.
-  - cbn [forallb length] in *. apply andb_true_iff in Hnd. destruct Hnd as [Ho Hnd].
+  - cbn [length] in *.
     pose proof (Rep_AShape N 0 nveq t cs fl R) as S.
     assert (Hle : ht_size t <= 1073741824).
     { destruct HB as [_ HB]. rewrite (abs_size N 0 nveq _ _ _ R) in HB. lia. }
-    pose proof (nht_step_sim t cs fl o R Hle Ho) as Hs.
+    pose proof (nht_step_sim t cs fl o R Hle) as Hs.
     pose proof (a_nstep_bnd (abs 0 t cs) o n S Hrz HB ltac:(lia)) as Hb.
     destruct (a_nstep (abs 0 t cs) o) as [[x m']|e].
     + destruct Hs as (t' & cs' & fl' & -> & R' & A'). cbn [fst snd].
       destruct Hb as (S' & Hrz' & HB'). rewrite <- A' in Hrz', HB' |- *.
-      apply (IH t' cs' fl' (x :: acc) (n + 1) R' Hrz' HB'); [lia|exact Hnd].
+      apply (IH t' cs' fl' (x :: acc) (n + 1) R' Hrz' HB'). lia.
     + rewrite Hs. auto.
 Qed.
 
 (* ---- lyht_new ---- *)
-Lemma is_pow2_pow k : is_pow2 (2 ^ k) = true.
-Proof.
-  unfold is_pow2. assert (H : 2 ^ k <> 0) by (apply N.pow_nonzero; lia).
-  apply N.eqb_neq in H. rewrite H. cbn [negb andb].
-  rewrite N.sub_1_r, <- N.ones_equiv, N.land_ones, N.mod_same by (apply N.pow_nonzero; lia). reflexivity.
-Qed.
 
 Definition new_sz (k : N) : N := if 2 ^ k <? LYHT_MIN_SIZE then LYHT_MIN_SIZE else 2 ^ k.
 
@@ -2155,7 +2179,7 @@ Qed.
         never stop: no assertion of hash_table.c can fail ---- *)
 Notation nADist := (@ADist N N (fun x : N => x)).
 
-Lemma a_nstep_checked m o n : AShape m -> LF m -> nADist m -> Bnd m n -> 4 * n <= 16777216 ->
+Lemma a_nstep_checked m o n : AShape m -> LF m -> nADist m -> Bnd m n -> 4 * n <= 1073741824 ->
   checked_op o = true ->
   exists x m', a_nstep m o = Ok (x, m') /\ AShape m' /\ LF m' /\ nADist m' /\ Bnd m' (n + 1).
 Proof.
@@ -2174,10 +2198,14 @@ Proof.
   - destruct Hb as (_ & _ & HB'). eauto 8.
   - destruct Hb as (_ & _ & HB'). eauto 8.
   - destruct Hb as (_ & _ & HB'). eauto 8.
+  - destruct Hb as (S' & _ & HB'). eexists. eexists. split; [reflexivity|]. split; [exact S'|]. split.
+    + destruct Hlf as [Hr Hl]. split; [|exact Hl]. cbn [a_rz]. unfold dup_rz.
+      destruct (a_rz m =? 0) eqn:E0; [apply N.eqb_eq in E0; lia|lia].
+    + split; [exact Hd|exact HB'].
 Qed.
 
 Theorem a_nrun_checked_total : forall ops m acc n,
-  AShape m -> LF m -> nADist m -> Bnd m n -> 4 * (n + N.of_nat (length ops)) <= 16777216 ->
+  AShape m -> LF m -> nADist m -> Bnd m n -> 4 * (n + N.of_nat (length ops)) <= 1073741824 ->
   forallb checked_op ops = true ->
   exists outs m', a_nrun m ops acc = (outs, Ok m') /\ AShape m' /\ LF m' /\ nADist m'.
 Proof.
@@ -2188,25 +2216,34 @@ Proof.
     cbn [fst snd]. apply (IH m' (x :: acc) (n + 1)); auto. lia.
 Qed.
 
-Lemma checked_not_dup ops : forallb checked_op ops = true -> forallb not_dup ops = true.
-Proof.
-  induction ops as [|o ops IH]; cbn; [reflexivity|]. intro H. apply andb_true_iff in H. destruct H as [Ho H].
-  rewrite (IH H), andb_true_r. now destruct o.
-Qed.
-
-(* ---- lyht_dup() does not copy first_free_rec: an insert into the duplicate reuses record 0.
-        The value inserted before the dup is lost and record 0 is in two chains. ---- *)
-Lemma nht_dup_breaks_table :
+(* regression: the scripts that used to show the lyht_dup defect (first_free_rec was not copied, fixed in
+   /repo commit d69e9c2): the value inserted before the dup is found, further inserts succeed *)
+Lemma nht_dup_regression :
   fst (nht_run (init_tab 0 8 1) [OpIns 1 1; OpDup; OpIns 2 2; OpFind 1 1] [])
-    = [(LY_ERR_SUCCESS, Some 1); (LY_ERR_SUCCESS, None); (LY_ERR_SUCCESS, Some 2); (LY_ERR_ENOTFOUND, None)] /\
-  snd (nht_run (init_tab 0 8 1) [OpIns 1 1; OpDup; OpIns 2 2; OpIns 3 3] []) = Err E_ABORT.
+    = [(LY_ERR_SUCCESS, Some 1); (LY_ERR_SUCCESS, None); (LY_ERR_SUCCESS, Some 2); (LY_ERR_SUCCESS, Some 1)] /\
+  is_ok (snd (nht_run (init_tab 0 8 1) [OpIns 1 1; OpDup; OpIns 2 2; OpIns 3 3] [])) = true.
 Proof. split; vm_compute; reflexivity. Qed.
 
-(* ---- uint32_t arithmetic of the load factor: beyond 2^25 records used * 100 wraps ---- *)
-Lemma pct_wraps_refuted :
-  let t := mkht 55000000 67108864 2 0 (@nil hlist) (@nil (hrec N)) in
-  75 * ht_size t <= ht_used t * 100 /\ ht_used t < ht_size t /\ pct t < LYHT_SHRINK_PERCENTAGE.
-Proof. vm_compute. repeat split; congruence. Qed.
+(* ---- the load percentage is exact (64-bit product since /repo commit be54a69): the enlarge and shrink
+        tests compare the true load with 75 % and 25 % for every used and size ---- *)
+Lemma pct_exact {V} (t : ht V) : 0 < ht_size t ->
+  (LYHT_ENLARGE_PERCENTAGE <= pct t <-> 75 * ht_size t <= ht_used t * 100) /\
+  (pct t < LYHT_SHRINK_PERCENTAGE <-> ht_used t * 100 < 25 * ht_size t).
+Proof.
+  intro Hs. unfold pct, LYHT_ENLARGE_PERCENTAGE, LYHT_SHRINK_PERCENTAGE, LYHT_HUNDRED_PERCENTAGE. split.
+  - split; intro H.
+    + pose proof (N.mul_div_le (ht_used t * 100) (ht_size t) ltac:(lia)). nia.
+    + apply N.div_le_lower_bound; lia.
+  - split; intro H.
+    + destruct (N.lt_ge_cases (ht_used t * 100) (25 * ht_size t)) as [H1|H1]; [exact H1|]. exfalso.
+      assert (25 <= ht_used t * 100 / ht_size t) by (apply N.div_le_lower_bound; lia). lia.
+    + apply N.div_lt_upper_bound; lia.
+Qed.
+
+(* the former witness of the uint32_t wrap (2^26 records, 55000000 used = 82 %): no shrink any more *)
+Lemma pct_former_witness :
+  pct (mkht 55000000 67108864 2 0 (@nil hlist) (@nil (hrec N))) = 81.
+Proof. vm_compute. reflexivity. Qed.
 
 (* ------------------------------------------------------------------------------------------ *)
 (* in-place update of a stored value through the pointer returned in *match_p (dictionary        *)
@@ -2316,7 +2353,7 @@ Qed.
 
 (* ---- the load-factor invariant holds in every state reached with resizing enabled (also with
         lyht_insert_no_check), hence first_free_rec < size at every insert ---- *)
-Lemma a_nstep_lf m o : AShape m -> no_wrap m -> a_size m <= 16777216 -> LF m ->
+Lemma a_nstep_lf m o : AShape m -> no_wrap m -> a_size m <= 1073741824 -> LF m ->
   match a_nstep m o with Ok (_, m') => LF m' | Err _ => True end.
 Proof.
   intros S W W' [Hrz Hlf].
@@ -2327,8 +2364,9 @@ Proof.
     destruct (a_insert nveq m check true h v) as [[[c mv] m']|e]; cbn [bind fst snd]; [|exact I].
     destruct H as (_ & Hrz' & [(_ & -> & _)|(_ & _ & _ & _ & _ & Hlf' & _)]); [split; assumption|].
     split; [destruct Hrz' as [->|[_ ->]]; lia|apply Hlf'; lia]. }
-  destruct o as [h v|h v|h v|h v|h v|h v|]; cbn [a_nstep]; [apply Hins|apply Hins| | | | |exact I];
+  destruct o as [h v|h v|h v|h v|h v|h v|]; cbn [a_nstep]; [apply Hins|apply Hins| | | | | ];
     try (split; assumption).
+  2:{ split; [|exact Hlf]. cbn [a_rz]. unfold dup_rz. destruct (a_rz m =? 0) eqn:E0; [apply N.eqb_eq in E0; lia|lia]. }
   pose proof (a_remove_shape N nveq m h v S W) as H.
   destruct (a_remove nveq m h v) as [[c m']|e]; cbn [bind fst snd]; [|exact I].
   destruct H as (_ & Hrz' & [(_ & -> & _)|(_ & _ & _ & _ & Hlf')]); [split; assumption|].
@@ -2336,7 +2374,7 @@ Proof.
 Qed.
 
 Theorem a_nrun_lf : forall ops m acc n, AShape m -> LF m -> Bnd m n ->
-  4 * (n + N.of_nat (length ops)) <= 16777216 ->
+  4 * (n + N.of_nat (length ops)) <= 1073741824 ->
   match a_nrun m ops acc with (_, Ok m') => LF m' | _ => True end.
 Proof.
   induction ops as [|o ops IH]; intros m acc n S Hlf HB Hn; cbn [a_nrun]; [exact Hlf|].
@@ -2359,13 +2397,13 @@ Qed.
 (* ------------------------------------------------------------------------------------------ *)
 (* from lyht_new(): every script                                                                 *)
 (* ------------------------------------------------------------------------------------------ *)
-Lemma new_sz_le k : k <= 20 -> new_sz k <= 1048576.
+Lemma new_sz_le k : k <= 26 -> new_sz k <= 67108864.
 Proof.
-  intro Hk. unfold new_sz, LYHT_MIN_SIZE. destruct (2 ^ k <? 8); [lia|]. change 1048576 with (2 ^ 20).
+  intro Hk. unfold new_sz, LYHT_MIN_SIZE. destruct (2 ^ k <? 8); [lia|]. change 67108864 with (2 ^ 26).
   apply N.pow_le_mono_r; lia.
 Qed.
 
-Lemma empty_amm_facts {V} (veq : bool -> V -> V -> bool) k rz : k <= 20 ->
+Lemma empty_amm_facts {V} (veq : bool -> V -> V -> bool) k rz : k <= 26 ->
   let m0 := mkamm rz (repeat (@nil (N * V)) (N.to_nat (new_sz k))) in
   AShape m0 /\ Bnd m0 (new_sz k) /\ concat (a_bk m0) = [] /\ (1 <= rz <= 2 -> LF m0).
 Proof.
@@ -2377,7 +2415,7 @@ Proof.
 Qed.
 
 Theorem nht_new_run_refines k rz ops :
-  k <= 20 -> rz <= 1 -> N.of_nat (length ops) <= 3145728 -> forallb not_dup ops = true ->
+  k <= 26 -> rz <= 1 -> N.of_nat (length ops) <= 201326592 ->
   lyht_new 0 (2 ^ k) rz = Ok (init_tab 0 (new_sz k) rz) /\
   match a_nrun (mkamm rz (repeat [] (N.to_nat (new_sz k)))) ops [] with
   | (outs, Ok m') => exists t' cs' fl',
@@ -2385,25 +2423,24 @@ Theorem nht_new_run_refines k rz ops :
   | (outs, Err e) => nht_run (init_tab 0 (new_sz k) rz) ops [] = (outs, Err e) /\ e = E_ABORT
   end.
 Proof.
-  intros Hk Hrz Hn Hnd. destruct (lyht_new_Rep 0 nveq k rz ltac:(lia) Hrz) as (E & R & A).
+  intros Hk Hrz Hn. destruct (lyht_new_Rep 0 nveq k rz ltac:(lia) Hrz) as (E & R & A).
   split; [exact E|]. rewrite <- A.
   destruct (empty_amm_facts nveq k rz Hk) as (_ & HB & _). pose proof (new_sz_le k Hk).
   apply (nht_run_sim ops _ _ _ [] (new_sz k) R).
   - cbn. lia.
   - now rewrite A.
   - lia.
-  - exact Hnd.
 Qed.
 
 (* with resizing enabled no state has an empty free list (the assert of lyht_insert) *)
 Theorem nht_new_run_free_rec k ops :
-  k <= 20 -> N.of_nat (length ops) <= 3145728 -> forallb not_dup ops = true ->
+  k <= 26 -> N.of_nat (length ops) <= 201326592 ->
   match nht_run (init_tab 0 (new_sz k) 1) ops [] with
   | (_, Ok t') => ht_ff t' < ht_size t'
   | (_, Err e) => e = E_ABORT
   end.
 Proof.
-  intros Hk Hn Hnd. destruct (nht_new_run_refines k 1 ops Hk ltac:(lia) Hn Hnd) as [_ H].
+  intros Hk Hn. destruct (nht_new_run_refines k 1 ops Hk ltac:(lia) Hn) as [_ H].
   destruct (empty_amm_facts nveq k 1 Hk) as (S & HB & Hc & Hlf0). pose proof (new_sz_le k Hk).
   pose proof (a_nrun_lf ops _ [] (new_sz k) S (Hlf0 ltac:(lia)) HB ltac:(lia)) as Hl.
   destruct (a_nrun _ ops []) as [outs [m'|e]].
@@ -2413,12 +2450,12 @@ Qed.
 
 (* scripts of checked operations with resizing enabled never stop *)
 Theorem nht_new_checked_total k ops :
-  k <= 20 -> N.of_nat (length ops) <= 3145728 -> forallb checked_op ops = true ->
+  k <= 26 -> N.of_nat (length ops) <= 201326592 -> forallb checked_op ops = true ->
   exists outs t' cs' fl',
     nht_run (init_tab 0 (new_sz k) 1) ops [] = (outs, Ok t') /\ Rep 0 t' cs' fl' /\
     a_nrun (mkamm 1 (repeat [] (N.to_nat (new_sz k)))) ops [] = (outs, Ok (abs 0 t' cs')).
 Proof.
-  intros Hk Hn Hc. destruct (nht_new_run_refines k 1 ops Hk ltac:(lia) Hn (checked_not_dup _ Hc)) as [_ H].
+  intros Hk Hn Hc. destruct (nht_new_run_refines k 1 ops Hk ltac:(lia) Hn) as [_ H].
   destruct (empty_amm_facts nveq k 1 Hk) as (S & HB & Hcc & Hlf0). pose proof (new_sz_le k Hk).
   destruct (a_nrun_checked_total ops _ [] (new_sz k) S (Hlf0 ltac:(lia))) as (outs & m' & E & _); auto.
   { unfold ADist. rewrite Hcc. constructor. }
